@@ -11,8 +11,9 @@ import (
 type Anc struct {
 	Nav      bool `json:"nav,omitempty"`      // nav / aside element, or role=navigation|complementary
 	NavDeep  bool `json:"nav_deep,omitempty"` // ... and that element lies inside a content element (td, li, blockquote), not on the block path
-	HdrFtr   bool `json:"hdrftr,omitempty"`   // header / footer element
-	Role     bool `json:"role,omitempty"`     // any role attribute
+	HdrFtr   bool `json:"hdrftr,omitempty"`   // header / footer element, or role=banner|contentinfo, that is a child or grandchild of body ("top-level" at most there)
+	Role     bool `json:"role,omitempty"`     // any other role attribute
+	DeepHF   bool `json:"deep_hf,omitempty"`  // header / footer / role=banner|contentinfo further down: documented as kept
 	ClassID  bool `json:"classid,omitempty"`  // any class or id attribute
 	LinkBlk  bool `json:"linkblk,omitempty"`  // an element holding >= 4 <a> descendants or whose text is >= 30% link text
 	Depth    int  `json:"depth"`              // elements between body and the leaf
@@ -114,10 +115,16 @@ func ancWith(a Anc, n *Node, inUnit bool) Anc {
 		}
 		a.Nav = true
 	}
-	if n.Tag == "header" || n.Tag == "footer" {
+	// "<header> and <footer> are only skipped when they are direct children of <body> or a single top-level
+	// wrapper element" (role=banner and role=contentinfo are their ARIA spellings): from the third level on they
+	// are ordinary containers
+	hf := n.Tag == "header" || n.Tag == "footer" || role == "banner" || role == "contentinfo"
+	if hf && a.Depth <= 2 {
 		a.HdrFtr = true
+	} else if hf {
+		a.DeepHF = true
 	}
-	if hasRole {
+	if hasRole && role != "banner" && role != "contentinfo" {
 		a.Role = true
 	}
 	if _, ok := n.Get("class"); ok {
